@@ -2,37 +2,68 @@ import TwistedModel.Defer.Core
 /-
 Reference interpreter for C01: the *recursive* textbook semantics of Deferred chaining, as the documentation
 of `Deferred.callback` / `addCallbacks` gives it ("each callback's result is passed to the next; if a callback
-returns another Deferred, this Deferred waits for it and is resumed with its result").  It is what
-`Deferred._runCallbacks` looked like before chaining was made iterative:
+returns another Deferred, this Deferred waits for it and is resumed with its result; a returned Deferred that has
+already fired hands its result over at once").  It is what `Deferred._runCallbacks` looked like before chaining was
+made iterative:
 
     def run(d):
+        if d.running: return                     # `if self._runningCallbacks: return` — no nested loop for a Deferred
+                                                 # whose own loop is further up the call stack
         if d.paused: return
         while d.callbacks:
             item = d.callbacks.pop(0)
             if item is resume(c):                # installed by `c` when one of c's callbacks returned `d`
+                d.running = True                 # `resume` is one of d's callbacks: d is running while it executes
                 c.result, d.result = d.result, None
                 c.unpause()                      # paused -= 1; if it reached 0: run(c)   -- RECURSION
+                d.running = False
             else:
-                d.result = call(item, d.result)
+                d.result = call(item, d.result)  # (user callables do not touch Deferreds: `running` is unobservable here)
                 if d.result is a Deferred j:
-                    d.pause()
-                    j.addBoth(resume(d))         # append; if j.called: run(j)            -- RECURSION
-                    return
+                    if j has fired, is not paused, holds a plain result and has no callbacks left:
+                        d.result, j.result = j.result, None      # already fired: its result is used at once
+                    else:
+                        d.pause()
+                        j.addBoth(resume(d))     # append; if j.called: run(j)            -- RECURSION (guarded)
+                        return
 
-No chain stack, no `_CONTINUE` sentinel driving an outer loop, no result stealing: an already-fired returned
-Deferred is handled by the very same `addBoth(resume)` (which then runs at once).  `Item.cont c` plays `resume(c)`.
+No chain stack and no `_CONTINUE` sentinel driving an outer loop: nesting is the call stack.  The two rules beyond
+"each callback's result is passed to the next; a Deferred that returns a Deferred waits for it" (howto `defer.rst`,
+"Chaining Deferreds": "Deferred A's processing chain will stop until Deferred B's .callback() method is called; at that
+point, the next callback in A will be passed the result of the last callback in Deferred B's processing chain at the
+time") are both stated in the docstring of `Deferred._runCallbacks` in `src/twisted/internet/defer.py`:
 
-Recursion is bounded by an explicit `fuel`; `none` = fuel exhausted (never a made-up answer).  TwistedProps/C01
-shows that more fuel never changes an answer.  The loop `while d.callbacks` is written as the tail call
-`run fuel st d`, which re-tests `d.paused`: the same thing unless a callback of `d` made `d` wait, and then the
-loop is left anyway.
+  1. the re-entrancy guard — "If `_runningCallbacks` is true, this loop won't run at all, since it is already running
+     above us on the call stack" (`if self._runningCallbacks: return  # Don't recursively run callbacks`, in defer.py
+     since long before chaining was made iterative).  Here: `running`, the list of Deferreds whose loop is on the call
+     stack.  A Deferred that is returned while it is in the middle of its own chain is therefore NOT re-entered: the
+     continuation is appended and its remaining callbacks run when control returns to its own loop.
+  2. the immediate-result rule — "If a Deferred *with* a result is encountered, that result is taken and the loop
+     proceeds" (a Deferred *without* a result makes the loop stop and wait).  Here: `idleFired` — fired, not paused,
+     holds a plain (non-Deferred) result and has nothing left to run, so that what it holds IS its result; a Deferred
+     that still has callbacks to run (it is in the middle of its chain) holds only a transient value and is waited for.
+     For an idle Deferred that is not running, rule 2 is the same as `addBoth(resume)` running at once
+     (TwistedProps/C01: `steal_heap`, `loop_quiet`); for one whose loop is still on the call stack but has nothing left
+     to run, the bare guard would delay the resumption until the stack unwinds, rule 2 says: at once.
+
+`Item.cont c` plays `resume(c)`.
+
+Recursion is bounded by an explicit `fuel`; `none` = fuel exhausted (never a made-up answer).  The loop
+`while d.callbacks` is written as the tail call `run fuel running st d`, which re-tests `d.paused`: the same thing unless
+a callback of `d` made `d` wait, and then the loop is left anyway.
 -/
 namespace Twisted.Defer.Spec
 open Twisted.Defer.Core
 
-def run : Nat → Heap → Nat → Option Heap
-  | 0, _, _ => none
-  | fuel + 1, (cells, tr), d =>
+/-- the returned Deferred has fired, is not paused, holds a plain result and has no callbacks left -/
+def idleFired (cj : Cell) : Bool :=
+  cj.result != .unset && !cj.result.isDref && cj.paused == 0 && cj.callbacks.isEmpty
+
+def run : Nat → List Nat → Heap → Nat → Option Heap
+  | 0, _, _, _ => none
+  | fuel + 1, running, (cells, tr), d =>
+    if running.contains d then some (cells, tr)          -- `if self._runningCallbacks: return`
+    else
     match cells[d]? with
     | none => some (cells, tr)
     | some cell =>
@@ -41,17 +72,17 @@ def run : Nat → Heap → Nat → Option Heap
         match cell.callbacks with
         | [] => some (cells, tr)
         | .cont c :: rest =>
-          -- resume(c): c.result = d.result; d.result = None; c.unpause()
+          -- resume(c): c.result = d.result; d.result = None; c.unpause()   (d is running meanwhile)
           let cells1 := modify (modify (cells.set d { cell with callbacks := rest }) c (handOver cell.result))
                           d (setResult .pyNone)
           match cells1[c]? with
-          | none => run fuel (cells1, tr) d
+          | none => run fuel running (cells1, tr) d
           | some cc =>
             if cc.paused = 0 ∧ cc.called then
-              match run fuel (cells1, tr) c with
+              match run fuel (d :: running) (cells1, tr) c with
               | none => none
-              | some st => run fuel st d
-            else run fuel (cells1, tr) d
+              | some st => run fuel running st d
+            else run fuel running (cells1, tr) d
         | .pair tag cb eb :: rest =>
           let slot := pick cell.result cb eb
           let out := slotOut slot cell.result
@@ -59,21 +90,24 @@ def run : Nat → Heap → Nat → Option Heap
           let cells1 := cells.set d { cell with callbacks := rest, result := out }
           match out with
           | .dref j =>
-            -- d.pause(); j.addBoth(resume(d))
-            let cells2 := modify cells1 d pauseCell
-            match cells2[j]? with
-            | none => some (cells2, tr')                    -- a Deferred outside the heap never fires
+            match cells1[j]? with
+            | none => some (modify cells1 d pauseCell, tr')  -- a Deferred outside the heap never fires: d.pause()
             | some cj =>
-              let cells3 := cells2.set j (appendCont d cj)
-              if cj.called then run fuel (cells3, tr') j
-              else some (cells3, tr')
-          | _ => run fuel (cells1, tr') d
+              if idleFired cj then
+                -- already fired, nothing left to run: d.result, j.result = j.result, None
+                run fuel running (modify (cells1.set j (setResult .pyNone cj)) d (setResult cj.result), tr') d
+              else
+                -- d.pause(); j.addBoth(resume(d))
+                let cells3 := modify (modify cells1 d pauseCell) j (appendCont d)
+                if cj.called then run fuel running (cells3, tr') j
+                else some (cells3, tr')
+          | _ => run fuel running (cells1, tr') d
 
 /-- fuel handed to `run` by the executable reference interpreter: ample for every heap (`pending` bounds the
     work); running out would be reported, not hidden -/
 def fuelFor (h : Heap) : Nat := 4 * pending h.1 + 4 * h.1.length + 16
 
-def specRun (h : Heap) (d : Nat) : Option Heap := run (fuelFor h) h d
+def specRun (h : Heap) (d : Nat) : Option Heap := run (fuelFor h) [] h d
 
 def step (s : State) (op : Op) : Option (State × Outcome) := stepWith specRun s op
 def exec (s : State) (ops : List Op) : Option State := execWith specRun s ops
